@@ -3,8 +3,12 @@ EXTENDS Loc, Json, SequencesExt
 CONSTANT OutFile
 ASSUME AllElemOK
 ASSUME AbbrevOnce
+\* the table names every operation once and every code once
+ASSUME \A i, j \in 1..Len(OpTable) : i # j => OpTable[i].code # OpTable[j].code /\ OpTable[i].atom # OpTable[j].atom
 ASSUME LET es == SetToSeq(Exprs) rs == SetToSeq(RefLists) IN
        ndJsonSerialize(OutFile,
           [j \in 1..Len(es) |-> [kind |-> "expr", ops |-> es[j], vals |-> [i \in 1..Len(es[j]) |-> Values(es[j][i])]]]
+          \* every operation of the table on its own, with its own operands
+          \o [j \in 1..Len(OpTable) |-> [kind |-> "sweep", ops |-> <<OpTable[j]>>, vals |-> <<Values(OpTable[j])>>]]
           \o [j \in 1..Len(rs) |-> [kind |-> "abbrev", refs |-> rs[j], distinct |-> Distinct(rs[j], {})]])
 =============================================================================
